@@ -29,12 +29,17 @@ BuildStep(s, o) ==
     [] o.op = "close"  -> [s EXCEPT !.tr = IF Closed(s.tr) THEN s.tr ELSE Append(s.tr, [d |-> o.d, m |-> EOT])]
     [] o.op = "smfadd" -> [s EXCEPT !.tracks = Append(s.tracks, s.tr),
                                     !.fmt = IF Len(s.tracks) + 1 > 1 /\ s.fmt = 0 THEN 1 ELSE s.fmt]
-Build(hist) == FoldLeft(BuildStep, B0, hist)
-
 Canon(f) == [fmt |-> IF Len(f.tracks) > 1 /\ f.fmt = 0 THEN 1 ELSE f.fmt,
              div |-> f.div,
              tracks |-> [i \in 1..Len(f.tracks) |->
                            IF Closed(f.tracks[i]) THEN f.tracks[i] ELSE Append(f.tracks[i], [d |-> Zero, m |-> EOT])]]
+
+\* an intermediate WriteTo (op "write") leaves the value WriteTo put on disk: tracks closed, format promoted
+BuildStepW(s, o) ==
+  IF o.op = "write"
+    THEN IF s.tracks = <<>> THEN s ELSE [s EXCEPT !.tracks = Canon(s).tracks, !.fmt = Canon(s).fmt]
+    ELSE BuildStep(s, o)
+Build(hist) == FoldLeft(BuildStepW, B0, hist)
 
 \* ---- the model writer ---------------------------------------------------------------------------
 IsChan(m) == m[1] \in 128..239
